@@ -115,12 +115,14 @@ type BundlePropertyExperimenter struct {
 
 func (p *BundlePropertyExperimenter) Len() uint16 {
 	length := uint16(unsafe.Sizeof(p.Type) + unsafe.Sizeof(p.Length) + unsafe.Sizeof(p.ExperimenterID) + unsafe.Sizeof(p.ExperimenterType))
-	return length + uint16(len(p.data))
+	// a property occupies a multiple of 8 bytes; its Length field excludes the padding
+	return (length + uint16(len(p.data)) + 7) / 8 * 8
 }
 
 func (p *BundlePropertyExperimenter) MarshalBinary() (data []byte, err error) {
 	data = make([]byte, p.Len())
 	n := 0
+	p.Length = 12 + uint16(len(p.data))
 	binary.BigEndian.PutUint16(data[n:], p.Type)
 	n += 2
 	binary.BigEndian.PutUint16(data[n:], p.Length)
@@ -134,7 +136,7 @@ func (p *BundlePropertyExperimenter) MarshalBinary() (data []byte, err error) {
 }
 
 func (p *BundlePropertyExperimenter) UnmarshalBinary(data []byte) error {
-	if len(data) < int(p.Len()) {
+	if len(data) < 12 {
 		return errors.New("the []byte is too short to unmarshal a full BundlePropertyExperimenter message")
 	}
 	n := 0
@@ -175,7 +177,9 @@ func (b *BundleAdd) Len() (n uint16) {
 	length := uint16(unsafe.Sizeof(b.BundleID) + unsafe.Sizeof(b.Flags))
 	length += uint16(len(b.pad))
 	length += b.Message.Len()
-	if b.Properties != nil {
+	if len(b.Properties) > 0 {
+		// the bundled message is padded to 8 bytes when properties follow it
+		length = (length + 7) / 8 * 8
 		for _, p := range b.Properties {
 			length += p.Len()
 		}
@@ -198,7 +202,8 @@ func (b *BundleAdd) MarshalBinary() (data []byte, err error) {
 	}
 	copy(data[n:], msgBytes)
 	n += len(msgBytes)
-	if b.Properties != nil {
+	if len(b.Properties) > 0 {
+		n = (n + 7) / 8 * 8
 		for _, property := range b.Properties {
 			propertyData, err := property.MarshalBinary()
 			if err != nil {
@@ -227,6 +232,7 @@ func (b *BundleAdd) UnmarshalBinary(data []byte) error {
 	}
 	n += int(b.Message.Len())
 	if n < len(data) {
+		n = (n + 7) / 8 * 8
 		b.Properties = make([]BundlePropertyExperimenter, 0)
 		for n < len(data) {
 			var property BundlePropertyExperimenter
